@@ -125,9 +125,15 @@ def addLf : BM Unit := do
 
 def replaceAll (s pat rep : String) : String := rep.intercalate (s.splitOn pat)
 
+/-- `!` -> `^!`, line feed -> `!LF!`: two `strings.ReplaceAll` with one-character patterns, i.e. a map over the characters
+    (the second replacement does not see the first one's output: it contains no line feed) -/
+def escCharB (c : Char) : List Char := if c == '!' then ['^', '!'] else if c == '\n' then ['!', 'L', 'F', '!'] else [c]
+
+def escapeB (value : String) : String := String.ofList (value.toList.flatMap escCharB)
+
 def stringToString (value : String) : BM String := do
   addLf
-  pure (replaceAll (replaceAll value "!" "^!") "\n" "!LF!")
+  pure (escapeB value)
 
 def funcArgVar (i : Nat) : String := s!"_fa{i}"
 def returnValVar (i : Nat) : String := s!"_rv{i}"
